@@ -114,7 +114,9 @@ var elemNames = []string{"a", "b", "c", "item", "A-b", "Ab", "x_y", "ns:a", "ns:
 var attrNames = []string{"id", "x", "A-t", "ns:k", "seq", "Name"}
 var textPool = []string{"x", "hello world", " u ", "1", "2.5", "true", "T", "NaN", "-inf", "1e3",
 	"<&>\"'", "a&amp;b", "&#x41;", "é€", "l1\nl2", "\ttab", "]]>", "<![CDATA[", "0x1F", "007", "-0", "9223372036854775808", "false", "Infinity",
-	"-9223372036854775808", "18446744073709551615", "-1234567890123456789", "00000000000000000042", "9223372036854775807", "18446744073709551616", ""}
+	"-9223372036854775808", "18446744073709551615", "-1234567890123456789", "00000000000000000042", "9223372036854775807", "18446744073709551616", "",
+	// Unicode white space that is NOT in the decoder's trim set (seed C01-3: strings.TrimSpace instead of Trim(trimRunes))
+	"\u00a0x\u00a0", "\u2003y", "z\u0085", "\u3000", " \u00a0 w \u2028"}
 
 type docCfg struct {
 	maxDepth  int
